@@ -3,6 +3,7 @@
 //!   frmc --replay <path>
 
 mod alloc;
+mod casefold;
 mod common;
 mod counts;
 mod engine;
@@ -49,6 +50,8 @@ fn main() {
         let w = match args[2].as_str() {
             "C01" => counts::Which::C01,
             "C03" => counts::Which::C03,
+            "C13" => counts::Which::C13,
+            "C07" => counts::Which::C07,
             _ => counts::Which::C04,
         };
         let t0 = Instant::now();
@@ -69,6 +72,21 @@ fn main() {
         let t0 = Instant::now();
         let sp = wide::wide_space(args[3] == "quick");
         let t = wide::sweep(&sp, m, 3);
+        println!("programs={} evaluations={} nontrivial={} violations={} counters={:?} wall={:.1}s", t.programs, t.evaluations, t.nontrivial, t.n_violations, t.counters, t0.elapsed().as_secs_f64());
+        for (_, v) in t.violations.iter().take(12) {
+            println!("  {}", v.str_of("summary"));
+        }
+        return;
+    }
+    if args.len() >= 3 && args[1] == "casefold" {
+        let w = match args[2].as_str() {
+            "C03" => casefold::Which::C03,
+            "C14" => casefold::Which::C14,
+            _ => casefold::Which::C04,
+        };
+        let t0 = Instant::now();
+        let t = casefold::sweep(w);
+        println!("{}", casefold::describe(w));
         println!("programs={} evaluations={} nontrivial={} violations={} counters={:?} wall={:.1}s", t.programs, t.evaluations, t.nontrivial, t.n_violations, t.counters, t0.elapsed().as_secs_f64());
         for (_, v) in t.violations.iter().take(12) {
             println!("  {}", v.str_of("summary"));
